@@ -51,7 +51,7 @@ unsigned long g_len[3];      /* length of the original of each file */
 unsigned char g_obyte[3];    /* original[id][g_pos], meaningful iff g_pos < g_len[id] */
 int g_had[3];                /* the original existed, complete, in T_TMP when the function under proof started */
 int g_dir[2];                /* the thread directory of the tree exists */
-int g_fsfault;               /* some FS stub reported a failure (or a short count) */
+unsigned g_fsfault;          /* number of FS calls that reported a failure (or a short count) so far */
 unsigned long g_total;       /* direct mode: number of stream bytes the thread has produced (file + buffer) */
 int g_fd_open;               /* the stream fd is open */
 
@@ -67,11 +67,18 @@ char g_xname[12];
 
 /* ---- the invariants asserted at every crash point / die ---- */
 /* C09: a finished-looking stream.json in the final directory implies complete events there */
-static int c09_obs_final_ok(void);   /* defined by the harness, after ovni.c (reads rproc / rthread) */
-static int c09_state(int tree, int id);
-#define INV_CRASH (!(c09_state(T_FIN, F_JSON) >= S_MAYBE && g_jfin[T_FIN]) || c09_obs_final_ok())
+/* All of these are plain expressions (no calls: they are used in contract clauses).
+ * While an output stream is open on a file, that file's state is derived from the stream slot. */
+#define C09_STATE(tree, id) ((g_out_open && g_out_tree == (tree) && g_out_id == (id)) \
+	? ((g_out_pos == g_len[id] && g_out_match) ? S_MAYBE : S_PARTIAL) : g_st[tree][id])
+/* final/stream.obs holds every flushed byte.  tmpdir mode: it is a complete copy.  Direct mode:
+ * every byte the thread produced has been handed to write(2) and none is pending in the buffer.
+ * (rproc / rthread: the real globals of ovni.c, included after this header) */
+#define OBS_FINAL_OK (rproc.move_to_final ? C09_STATE(T_FIN, F_OBS) == S_COMPLETE \
+	: (g_file_len == g_total && rthread.evlen == 0))
+#define INV_CRASH (!(C09_STATE(T_FIN, F_JSON) >= S_MAYBE && g_jfin[T_FIN]) || OBS_FINAL_OK)
 /* C10: never delete / truncate the only complete copy */
-#define NOLOSS(id) (!g_had[id] || c09_state(T_TMP, id) == S_COMPLETE || c09_state(T_FIN, id) == S_COMPLETE)
+#define NOLOSS(id) (!g_had[id] || C09_STATE(T_TMP, id) == S_COMPLETE || C09_STATE(T_FIN, id) == S_COMPLETE)
 #define INV_NOLOSS (NOLOSS(F_OBS) && NOLOSS(F_JSON) && NOLOSS(F_AUX))
 
 #ifdef C09_CRASH
@@ -79,17 +86,21 @@ static int c09_state(int tree, int id);
 #else
 #define C09_POINT_ASSERT(what) VASSERT(INV_NOLOSS, "C10 no-loss invariant at " what)
 #endif
-#define CRASH_POINT(what) do { if (nondet_bool()) { C09_POINT_ASSERT(what); __CPROVER_assume(0); } } while (0)
-static void c09_die_hook(void) { C09_POINT_ASSERT("die()"); }
+#define CRASH_POINT(what) if (nondet_bool()) { C09_POINT_ASSERT(what); __CPROVER_assume(0); }
+/* c09_die_hook is defined in c09_fs_post.h (after ovni.c) */
 
 #define ST_WF1(s) ((s) >= S_ABSENT && (s) <= S_COMPLETE)
 #define FS_WF (ST_WF1(g_st[0][0]) && ST_WF1(g_st[0][1]) && ST_WF1(g_st[0][2]) \
 	&& ST_WF1(g_st[1][0]) && ST_WF1(g_st[1][1]) && ST_WF1(g_st[1][2]) \
 	&& g_pos < (1UL << 62) && g_len[0] < (1UL << 62) && g_len[1] < (1UL << 62) && g_len[2] < (1UL << 62))
+#define FS_FRAME_FILES g_st, g_jfin, g_fsfault, __CPROVER_errno, \
+	g_in_open, g_in_tree, g_in_id, g_in_err, g_in_pos, g_in_len, g_in_byte, g_in_gen, \
+	g_out_open, g_out_tree, g_out_id, g_out_err, g_out_pos, g_out_match, g_out_gen
 #define FS_FRAME g_st, g_jfin, g_fsfault, g_dirent, g_dmask, __CPROVER_errno, \
 	g_in_open, g_in_tree, g_in_id, g_in_err, g_in_pos, g_in_len, g_in_byte, g_in_gen, \
 	g_out_open, g_out_tree, g_out_id, g_out_err, g_out_pos, g_out_match, g_out_gen
-#define FS_QUIET (!g_out_open && g_fsfault == 0)   /* no output stream open: g_st is the whole truth */
+/* no output stream open: g_st is the whole truth; counters cannot wrap (tiered: a caller's bound implies its callees') */
+#define FS_QUIET_N(n) (!g_out_open && g_fsfault < (n) && g_diag < (n) && g_err < (n) && g_warn < (n))
 
 /* ---- path encoder (replaces the formatting the prelude drops) ---- */
 #define C09_STREAM_PFX(p) ((p)[0] == 's' && (p)[1] == 't' && (p)[2] == 'r' && (p)[3] == 'e' && (p)[4] == 'a' && (p)[5] == 'm' && (p)[6] == '.')
@@ -105,7 +116,7 @@ static int c09_snp(char *s, size_t n, const char *fmt, const char *a0, const cha
 {
 	int r = nondet_int();
 	__CPROVER_assume(r >= 0);
-	if ((size_t) r >= n) g_fsfault = 1;   /* "path too long" is reported by the callers like an I/O fault */
+	if ((size_t) r >= n) g_fsfault++;   /* "path too long" is reported by the callers like an I/O fault */
 	if (s == NULL || n < 3) return r;
 	s[0] = a0 != NULL ? a0[0] : 0;
 	if (strcmp(fmt, "%s/%s") == 0)
@@ -136,269 +147,7 @@ static int c09_file(const char *path)
 }
 #define PATH_WF(p) (((p)[0] == TAG_TMP || (p)[0] == TAG_FIN) && ((p)[1] == 0 || (((p)[1] == 'o' || (p)[1] == 'j' || (p)[1] == 'a') && (p)[2] == 0)))
 
-/* ---- stdio streams ----
- * The runtime has at most one input and one output stream in use at a time; their state
- * lives in two global slots (so that loop invariants can name it).  A FILE* is a heap
- * handle carrying the generation of the slot: using a handle after fclose is a pointer
- * error, using a stale (leaked, superseded) handle fails the generation check.
- * While an output stream is open on a file, that file's state is DERIVED from the slot
- * (c09_state); fclose writes it back to g_st. */
-struct c09_handle { int wr; unsigned gen; };
-int g_in_open, g_in_tree, g_in_id, g_in_err;
-unsigned long g_in_pos;      /* bytes read so far */
-unsigned long g_in_len;      /* length of what is being read */
-unsigned char g_in_byte;     /* its byte at g_pos */
-unsigned g_in_gen;
-int g_out_open, g_out_tree, g_out_id, g_out_err;
-unsigned long g_out_pos;     /* bytes accepted by fwrite so far */
-int g_out_match;             /* no wrong byte at g_pos so far */
-unsigned g_out_gen;
-
-static int c09_state(int tree, int id)
-{
-	if (g_out_open && g_out_tree == tree && g_out_id == id)
-		return (g_out_pos == g_len[id] && g_out_match) ? S_MAYBE : S_PARTIAL;
-	return g_st[tree][id];
-}
-
-FILE *fopen(const char *path, const char *mode)
-{
-	CRASH_POINT("fopen");
-	VASSERT(PATH_WF(path) && path[1] != 0, "fopen: path names a stream file");
-	int tree = c09_tree(path), id = c09_file(path);
-	int wr = (mode[0] == 'w');
-	if (nondet_bool() || (!wr && c09_state(tree, id) == S_ABSENT)) { g_fsfault = 1; __CPROVER_errno = nondet_int(); return NULL; }
-	struct c09_handle *h = malloc(sizeof(*h));
-	__CPROVER_assume(h != NULL);
-	h->wr = wr;
-	if (wr) {
-		VASSERT(!g_out_open, "fopen(w): model has one output stream at a time");
-		VASSERT(!(g_in_open && g_in_tree == tree && g_in_id == id), "fopen(w) on the file being read");
-		/* created or truncated: whatever was there is gone (state derived from the slot from now on) */
-		g_out_open = 1; g_out_tree = tree; g_out_id = id; g_out_pos = 0; g_out_match = 1; g_out_err = 0;
-		h->gen = ++g_out_gen;
-		/* the json written through stdio is a copy of the other tree's json (byte-exactness is checked) */
-		if (id == F_JSON) g_jfin[tree] = g_jfin[1 - tree];
-	} else {
-		g_in_open = 1; g_in_tree = tree; g_in_id = id; g_in_pos = 0; g_in_err = 0;
-		h->gen = ++g_in_gen;
-		if (c09_state(tree, id) == S_COMPLETE) {
-			g_in_len = g_len[id]; g_in_byte = g_obyte[id];
-		} else {
-			/* a file that is not known to hold the original: any length, any content */
-			unsigned long l = nondet_size_t();
-			__CPROVER_assume(l < (1UL << 62));
-			g_in_len = l; g_in_byte = nondet_uchar();
-		}
-	}
-	return (FILE *) h;
-}
-
-size_t fread(void *buf, size_t size, size_t n, FILE *f)
-{
-	CRASH_POINT("fread");
-	struct c09_handle *h = (struct c09_handle *) f;
-	VASSERT(size == 1, "fread model: element size 1");
-	VASSERT(!h->wr && g_in_open && h->gen == g_in_gen, "fread on the open input stream");
-	size_t k = nondet_size_t();
-	unsigned long left = g_in_len - g_in_pos;
-	__CPROVER_assume(k <= n && k <= left);
-	if (nondet_bool()) g_in_err = 1;
-	/* a zero count means end of file or error */
-	__CPROVER_assume(k > 0 || left == 0 || n == 0 || g_in_err);
-	if (g_in_err) g_fsfault = 1;
-	if (k > 0 && g_pos >= g_in_pos && g_pos - g_in_pos < k)
-		((unsigned char *) buf)[g_pos - g_in_pos] = g_in_byte;
-	g_in_pos += k;
-	return k;
-}
-
-size_t fwrite(const void *buf, size_t size, size_t n, FILE *f)
-{
-	CRASH_POINT("fwrite");
-	struct c09_handle *h = (struct c09_handle *) f;
-	VASSERT(size == 1, "fwrite model: element size 1");
-	VASSERT(h->wr && g_out_open && h->gen == g_out_gen, "fwrite on the open output stream");
-	size_t m = nondet_size_t();
-	__CPROVER_assume(m <= n);
-	if (m < n) { g_out_err = 1; g_fsfault = 1; }
-	if (m > 0 && g_pos >= g_out_pos && g_pos - g_out_pos < m)
-		g_out_match = (((const unsigned char *) buf)[g_pos - g_out_pos] == g_obyte[g_out_id]);
-	g_out_pos += m;
-	return m;
-}
-
-int ferror(FILE *f)
-{
-	struct c09_handle *h = (struct c09_handle *) f;
-	VASSERT(h->wr ? (g_out_open && h->gen == g_out_gen) : (g_in_open && h->gen == g_in_gen), "ferror on an open stream");
-	return h->wr ? g_out_err : g_in_err;
-}
-
-int fclose(FILE *f)
-{
-	CRASH_POINT("fclose");
-	struct c09_handle *h = (struct c09_handle *) f;
-	int wr = h->wr;
-	VASSERT(wr ? (g_out_open && h->gen == g_out_gen) : (g_in_open && h->gen == g_in_gen), "fclose on an open stream");
-	free(h);
-	if (!wr) {
-		g_in_open = 0;
-		return nondet_bool() ? EOF : 0;   /* nothing is lost when closing an input stream fails */
-	}
-	int st = c09_state(g_out_tree, g_out_id);
-	g_out_open = 0;
-	if (nondet_bool()) {
-		/* buffered data not guaranteed on disk */
-		g_st[g_out_tree][g_out_id] = st;
-		g_fsfault = 1; __CPROVER_errno = nondet_int();
-		return EOF;
-	}
-	g_st[g_out_tree][g_out_id] = (st == S_MAYBE) ? S_COMPLETE : st;
-	return 0;
-}
-
-static int c09_tree_empty(int tree)
-{
-	return c09_state(tree, F_OBS) == S_ABSENT && c09_state(tree, F_JSON) == S_ABSENT && c09_state(tree, F_AUX) == S_ABSENT
-		&& !(tree == T_TMP && g_xkind == 2);
-}
-
-int remove(const char *path)
-{
-	CRASH_POINT("remove");
-	VASSERT(PATH_WF(path), "remove: encoded path");
-	int tree = c09_tree(path), id = c09_file(path);
-	if (nondet_bool()) { g_fsfault = 1; __CPROVER_errno = nondet_int(); return -1; }
-	if (id == F_NONE) {
-		if (!g_dir[tree] || !c09_tree_empty(tree)) { g_fsfault = 1; return -1; }
-		g_dir[tree] = 0;
-		return 0;
-	}
-	if (c09_state(tree, id) == S_ABSENT) { g_fsfault = 1; __CPROVER_errno = ENOENT; return -1; }
-	VASSERT(!(g_out_open && g_out_tree == tree && g_out_id == id), "remove of the file open for writing is not modelled");
-	g_st[tree][id] = S_ABSENT;
-	return 0;
-}
-
-int rmdir(const char *path)
-{
-	CRASH_POINT("rmdir");
-	int tree = c09_tree(path);
-	/* only an empty directory can be removed */
-	if (nondet_bool() || path[1] != 0 || !g_dir[tree] || !c09_tree_empty(tree)) {
-		__CPROVER_errno = nondet_int();
-		return -1;
-	}
-	g_dir[tree] = 0;
-	return 0;
-}
-
-int close(int fd)
-{
-	(void) fd;
-	CRASH_POINT("close");
-	g_fd_open = 0;
-	/* the result is ignored by ovni_thread_free; bytes handed to write(2) survive anyway */
-	return nondet_int();
-}
-
-ssize_t write(int fd, const void *buf, size_t n)
-{
-	CRASH_POINT("write");
-	return verif_rt_write(fd, buf, n);
-}
-
-static int c09_open(const char *path, int flags, int mode)
-{
-	(void) mode;
-	CRASH_POINT("open");
-	VASSERT(PATH_WF(path) && path[1] != 0, "open: path names a stream file");
-	int tree = c09_tree(path), id = c09_file(path);
-	int fd = nondet_int();
-	__CPROVER_assume(fd >= -1);
-	if (fd == -1) { g_fsfault = 1; __CPROVER_errno = nondet_int(); return -1; }
-	if ((flags & O_CREAT) && g_st[tree][id] == S_ABSENT) g_st[tree][id] = S_COMPLETE; /* empty file, original = what write(2) gets */
-	g_fd_open = 1;
-	return fd;
-}
+static int c09_open(const char *path, int flags, int mode);
 #define open(p, f, m) c09_open((p), (f), (m))
-
-/* ---- directory streams ---- */
-struct dirent g_dirent;
-unsigned g_dmask;            /* entries of the open directory not yet returned: bit id, bit 3 = non-stream entry */
-static char c09_dirobj;
-
-DIR *opendir(const char *path)
-{
-	CRASH_POINT("opendir");
-	VASSERT(PATH_WF(path) && path[1] == 0, "opendir: path names a thread directory");
-	int tree = c09_tree(path);
-	if (nondet_bool() || !g_dir[tree]) { g_fsfault = 1; __CPROVER_errno = nondet_int(); return NULL; }
-	g_dmask = 0;
-	if (c09_state(tree, F_OBS) != S_ABSENT) g_dmask |= 1u;
-	if (c09_state(tree, F_JSON) != S_ABSENT) g_dmask |= 2u;
-	if (c09_state(tree, F_AUX) != S_ABSENT) g_dmask |= 4u;
-	if (tree == T_TMP && g_xkind == 2) g_dmask |= 8u;
-	return (DIR *) &c09_dirobj;
-}
-
-struct dirent *readdir(DIR *d)
-{
-	CRASH_POINT("readdir");
-	VASSERT(d == (DIR *) &c09_dirobj, "readdir on the open directory");
-#ifdef C09_READDIR_MAY_FAIL
-	if (nondet_bool()) { g_fsfault = 1; __CPROVER_errno = nondet_int(); return NULL; }
-#endif
-	if (g_dmask == 0) return NULL;
-	/* any entry not yet returned, in any order */
-	unsigned k = nondet_uchar() & 3u;
-	__CPROVER_assume(g_dmask & (1u << k));
-	g_dmask &= ~(1u << k);
-	if (k == 0) strcpy(g_dirent.d_name, "stream.obs");
-	else if (k == 1) strcpy(g_dirent.d_name, "stream.json");
-	else memcpy(g_dirent.d_name, g_xname, sizeof(g_xname));
-	return &g_dirent;
-}
-
-int closedir(DIR *d) { (void) d; CRASH_POINT("closedir"); return nondet_int(); }
-
-/* ---- parson: serialize the thread metadata to <procdir>/thread.N/stream.json ----
- * parson does fopen("w") / fputs / fclose on the target itself (no temporary + rename),
- * so the old content is gone as soon as the file is opened. */
-JSON_Status json_serialize_to_file_pretty(const JSON_Value *v, const char *path)
-{
-	(void) v;
-	g_store_calls++;
-	CRASH_POINT("json store: before open");
-	VASSERT(PATH_WF(path) && c09_file(path) == F_JSON, "metadata is stored to stream.json");
-	int tree = c09_tree(path);
-	if (nondet_bool()) { g_store_failed = 1; g_fsfault = 1; return JSONFailure; }   /* serialization or fopen failed */
-	g_st[tree][F_JSON] = S_PARTIAL;
-	g_jfin[tree] = ((g_keys & K_FINISHED) && g_v_finished == 1.0);
-	g_keys_at_store = g_keys;
-	g_finished_at_store = g_v_finished;
-	CRASH_POINT("json store: opened");
-	if (nondet_bool()) { g_store_failed = 1; g_fsfault = 1; return JSONFailure; }   /* fputs failed */
-	g_st[tree][F_JSON] = S_MAYBE;
-	CRASH_POINT("json store: written");
-	if (nondet_bool()) { g_store_failed = 1; g_fsfault = 1; return JSONFailure; }   /* fclose failed */
-	g_st[tree][F_JSON] = S_COMPLETE;
-	CRASH_POINT("json store: closed");
-	return JSONSuccess;
-}
-
-/* ---- mkpath (src/common.c, outside the unit): abstract image of the contract proved in
- * group mkpath: returns 0 only if the directory exists afterwards ---- */
-int g_mkpath_failed;
-int mkpath(const char *path, mode_t mode, int is_dir)
-{
-	(void) mode; (void) is_dir;
-	CRASH_POINT("mkpath");
-	VASSERT(PATH_WF(path) && path[1] == 0, "mkpath: path names a thread directory");
-	if (nondet_bool()) { g_mkpath_failed = 1; g_fsfault = 1; return -1; }
-	g_dir[c09_tree(path)] = 1;
-	return 0;
-}
 
 #endif
